@@ -175,7 +175,7 @@ func init() {
 		"(*sync.Map).LoadOrStore":          ext۰sync۰Map۰LoadOrStore,
 		"(*sync.Map).Delete":               ext۰sync۰Map۰Delete,
 		"(*sync.Pool).Get":                 ext۰sync۰Pool۰Get,
-		"(*sync.Pool).Put":                 func(fr *frame, a []value) value { extSync("Pool.Put")(fr, a); return nil },
+		"(*sync.Pool).Put":                 ext۰sync۰Pool۰Put,
 		"(*sync/atomic.Value).Load":        ext۰atomic۰Value۰Load,
 		"(*sync/atomic.Value).Store":       ext۰atomic۰Value۰Store,
 		"sort.Slice":                       ext۰sort۰Slice,
@@ -203,10 +203,27 @@ func ext۰math۰Float64frombits(fr *frame, args []value) value {
 	return math.Float64frombits(args[0].(uint64))
 }
 func ext۰math۰Float64bits(fr *frame, args []value) value {
-	if _, ok := args[0].(*Sym); ok {
-		panic(abortPath{"inconclusive", "math.Float64bits on symbolic float"})
+	if s, ok := args[0].(*Sym); ok {
+		return valueOf(floatBits(fr.i, s.T, 64, smt.FP64), types.Uint64)
 	}
 	return math.Float64bits(args[0].(float64))
+}
+
+// floatBits: the bit pattern of a symbolic float is a fresh bit-vector b with
+// to_fp(b) = x (structural equality, so -0 and +0 differ); the same x yields
+// the same b on a path. For NaN the payload is unconstrained.
+func floatBits(i *interpreter, x *smt.Term, w int, sort smt.Sort) *smt.Term {
+	key := "fbits|" + x.String()
+	if i.ps.uf == nil {
+		i.ps.uf = map[string]*smt.Term{}
+	}
+	if b, ok := i.ps.uf[key]; ok {
+		return b
+	}
+	b := smt.Var(fmt.Sprintf("uf%d_fbits", len(i.ps.uf)), smt.BV(w))
+	i.ps.uf[key] = b
+	i.assertPC(smt.Eq(smt.FPFromBits(b, sort), x))
+	return b
 }
 func ext۰math۰Float32frombits(fr *frame, args []value) value {
 	if s, ok := args[0].(*Sym); ok {
@@ -215,8 +232,8 @@ func ext۰math۰Float32frombits(fr *frame, args []value) value {
 	return math.Float32frombits(args[0].(uint32))
 }
 func ext۰math۰Float32bits(fr *frame, args []value) value {
-	if _, ok := args[0].(*Sym); ok {
-		panic(abortPath{"inconclusive", "math.Float32bits on symbolic float"})
+	if s, ok := args[0].(*Sym); ok {
+		return valueOf(floatBits(fr.i, s.T, 32, smt.FP32), types.Uint32)
 	}
 	return math.Float32bits(args[0].(float32))
 }
@@ -530,8 +547,9 @@ func ext۰unicode۰Is(fr *frame, args []value) value {
 
 // nativeRegexp: a compiled pattern (re), or an accepted symbolic pattern (sym).
 type nativeRegexp struct {
-	re  *regexp.Regexp
-	sym value
+	re    *regexp.Regexp
+	sym   value
+	posix bool
 }
 
 func (n nativeRegexp) key() string {
@@ -573,6 +591,12 @@ func ext۰regexp۰Match(fr *frame, args []value) value {
 	nre := (*p).(nativeRegexp)
 	re := nre.re
 	b, ok := bytesConcrete(args[1].([]value))
+	if !ok && re != nil && !fr.i.eng.NoRegexpNFA {
+		// concrete pattern, symbolic subject: exact (regexpnfa.go)
+		if t, ok := fr.i.reMatchTerm(re.String(), nre.posix, args[1].([]value)); ok {
+			return boolVal(t)
+		}
+	}
 	if !ok || re == nil {
 		// regexp is environment: the verdict on a symbolic subject is an
 		// uninterpreted boolean REm(pattern, subject), the same for the same
@@ -802,9 +826,33 @@ func ext۰sync۰Map۰Delete(fr *frame, args []value) value {
 	return nil
 }
 
+// sync.Pool: Get may hand back any object Put earlier or a new one; both are
+// explored (the most recently Put object first, as the per-P private slot of
+// the real pool does on one goroutine).
+func ext۰sync۰Pool۰Put(fr *frame, args []value) value {
+	fr.i.ps.events = append(fr.i.ps.events, "sync:Pool.Put")
+	cell := args[0].(*value)
+	if it, ok := args[1].(iface); ok && it.t == nil {
+		return nil // Put(nil) is a no-op
+	}
+	if fr.i.ps.pools == nil {
+		fr.i.ps.pools = map[*value][]value{}
+	}
+	fr.i.ps.pools[cell] = append(fr.i.ps.pools[cell], args[1])
+	return nil
+}
+
 func ext۰sync۰Pool۰Get(fr *frame, args []value) value {
 	fr.i.ps.events = append(fr.i.ps.events, "sync:Pool.Get")
-	p := (*args[0].(*value)).(structure)
+	cell := args[0].(*value)
+	if items := fr.i.ps.pools[cell]; len(items) > 0 {
+		if fr.i.choose(2, "sync.Pool.Get: reuse or new") == 0 {
+			x := items[len(items)-1]
+			fr.i.ps.pools[cell] = items[:len(items)-1]
+			return x
+		}
+	}
+	p := (*cell).(structure)
 	newFn := p[len(p)-1] // New func() any is the last field
 	switch f := newFn.(type) {
 	case *ssa.Function:
